@@ -7,7 +7,7 @@ from hypothesis import strategies as st
 from pbt import strategies as S
 from pbt.common import Stats, Sub, Violation
 from pbt.model import Model
-from pbt.sut import curies, mk_converter, mk_incremental_queried, mk_split_merge
+from pbt.sut import curies, history_variants, mk_converter
 
 PROPERTY_ID = "C02"
 RULE = (
@@ -123,9 +123,8 @@ def check(case, stats: Stats) -> None:
             curie = p + d + i
             c.expand(curie), c.expand_all(curie), c.expand_pair(p, i), c.expand_pair_all(p, i), c.is_curie(curie), c.parse_curie(curie)
 
-    inc = mk_incremental_queried(spec, list(reversed(range(n))), queries)
-    _check_on(inc, case, stats, "built incrementally with interleaved queries", False)
-    _check_on(mk_split_merge(spec), case, stats, "built by merging whole records that are named after a synonym", False)
+    for how, conv in history_variants(spec, queries, base=False):
+        _check_on(conv, case, stats, how, False)
 
 
 SUBS = [
